@@ -388,6 +388,10 @@ func init() {
 	}
 	intrinsics["verifEnvBegin"] = func(e *Exec, fn *ssa.Function, a []Value) []Value { e.envBegin(); return nil }
 	intrinsics["verifEnvReplay"] = func(e *Exec, fn *ssa.Function, a []Value) []Value { e.envReplay(); return nil }
+	intrinsics["verifGo"] = func(e *Exec, fn *ssa.Function, a []Value) []Value {
+		e.callValue(a[0], nil) // sequentially: the goroutine is joined before anything else runs
+		return nil
+	}
 	intrinsics["verifRepeat"] = func(e *Exec, fn *ssa.Function, a []Value) []Value { return []Value{BVU(1, 64)} }
 	intrinsics["verifEnvEnd"] = func(e *Exec, fn *ssa.Function, a []Value) []Value { e.envEnd(); return nil }
 	// verifDeepEq(x, y any): structural equality of two observations (responses, errors, update lists)
